@@ -46,7 +46,9 @@ def run(ctx):
         mm = n // 2 + m
         N = 2 * mm + 4
         for gname, g in (('uniform', [Fr(k) for k in range(N)]), ('uniform descending', [Fr(-k) for k in range(N)]),
-                         ('stretched', [Fr(k) + Fr(k * k, 7) for k in range(N)])):
+                         ('stretched', [Fr(k) + Fr(k * k, 7) for k in range(N)]),
+                         # spacing 1 on the first half, 1/2 on the second: neighbouring stencils share all but one spacing
+                         ('locally refined', [Fr(k) if k <= N // 2 else Fr(N // 2) + Fr(k - N // 2, 2) for k in range(N)])):
             exact(ctx, where, n, m, g, gname)
     rep.notes['trusted_base'] = ['python ast', 'ndverif abstract interpreter (array views with exact index sets)', 'C15']
 
